@@ -81,6 +81,7 @@ pub fn request_classes() -> Vec<(&'static str, Vec<u8>)> {
         ("absolute_form_target", b"GET http://evil.example/file.txt HTTP/1.1\r\nHost: h\r\n\r\n".to_vec()),
         ("multipart_odd", req("POST", FORM_MULTIPART, &[("Content-Type", "multipart/form-data; boundary=B"), ("Content-Length", "30")], b"--B\r\nX: 1\r\n\r\nv\r\n--B--\r\n")),
         ("head", req("HEAD", "/file.txt", &[], b"")),
+        ("conditional_get", req("GET", "/file.txt", &[("If-Modified-Since", "Sat, 29 Oct 1994 19:43:31 GMT"), ("If-None-Match", "\"abc\"")], b"")),
         ("options", req("OPTIONS", "/file.txt", &[("Origin", "http://a.example")], b"")),
         ("header_flood", flood),
         ("non_utf8_head", b"GET /\xff\xfe HTTP/1.1\r\n\r\n".to_vec()),
@@ -127,6 +128,10 @@ pub fn random_history(seed: u64, idx: u64, max_len: usize) -> Scenario {
     sc.request_size = pick_buffer(&mut rng).max(4096);
     sc.yields = pick_yields(&mut rng);
     sc.tree = small_tree(0xC06);
+    // a third of the histories: files with modification times at the corners of the calendar
+    if rng.chance(1, 3) {
+        sc.tree.mtime_mode = rng.range(8, 49) as u8;
+    }
     let len = match rng.below(4) {
         0 => rng.range(1, 4),
         1 => rng.range(sc.workers, sc.workers + 3),
